@@ -145,7 +145,7 @@ int main(int argc, char **argv) {
         for (unsigned i = 0; i < sizeof PL / sizeof PL[0]; i++) { CURPH = PL[i]; char nm[64]; snprintf(nm, sizeof nm, "%.40s (N=%d)", corpus_name(CURPH), corpus_N(CURPH)); mc_parallel(nm, corpus_shards(CURPH), phase_shard, NULL); }
         return mc_finish();
     }
-    static const int PH[] = { CP_LOCAL, CP_EMAIL, CP_DOMAIN, CP_CROSS, CP_BYTES, CP_TLD, CP_LITERAL, CP_LABELLEN, CP_ALTDOT, CP_LONGIDN, CP_MAXLIT, CP_LPXDOM, CP_WHOLEDOM, CP_DEPTH, CP_EMBED, CP_SUBST, CP_SHORTLAB, CP_POSN, CP_WRAP, CP_SCALARS };
+    static const int PH[] = { CP_LOCAL, CP_EMAIL, CP_DOMAIN, CP_CROSS, CP_BYTES, CP_TLD, CP_LITERAL, CP_LABELLEN, CP_ALTDOT, CP_LONGIDN, CP_MAXLIT, CP_LPXDOM, CP_WHOLEDOM, CP_DEPTH, CP_EMBED, CP_SUBST, CP_SHORTLAB, CP_POSN, CP_WRAP, CP_EDIT, CP_SCALARS };
     for (unsigned i = 0; i < sizeof PH / sizeof PH[0]; i++) { CURPH = PH[i]; char nm[64]; snprintf(nm, sizeof nm, "%.40s (N=%d)", corpus_name(CURPH), corpus_N(CURPH)); mc_parallel(nm, corpus_shards(CURPH), phase_shard, NULL); }
     return mc_finish();
 }
